@@ -64,6 +64,14 @@ theorem C14_asis_grad_cex :
     outcome Cfg.spec [.jit, .grad] = .loweringError ∧ seeded Cfg.spec [.grad] = .keyFunction := by
   decide
 
+/-- third consequence of the same open finding, found by the exhaustive depth-3 run: below a `jit`
+    inside a modular_vmap the inlined draw is one trace-time constant shared by all lanes -/
+theorem C14_asis_grad_mvmap_jit_cex :
+    seeded Cfg.asis [.grad, .mvmap, .jit] = .replicated ∧
+    seeded Cfg.asis [.grad, .mvmap, .scan] = .keyIgnored ∧
+    seeded Cfg.spec [.grad, .mvmap, .jit] = .loweringError := by
+  decide
+
 theorem C14_asis_vmap_cex :
     outcome Cfg.asis [.vmapU] = .replicated ∧ outcome Cfg.spec [.vmapU] = .batchError := by
   decide
